@@ -87,6 +87,8 @@ class Runtime:
         self.ext_fail = {}
         self.dests = {}
         self.offered, self.accepted = [], []
+        self.reg = None  # the harness's own record of the registered destinations (None = nothing added yet), from the API calls it made
+        self.offered_reg = []  # parallel to `offered`: `reg` at the moment of the call
         self.with_exits = []  # (uuid tag, level) of every action left through `with action:`
         self.reserved = []  # every id returned by serialize_task_id
         self.failures = []  # (dest, call index, exc id, was the message a report?)
@@ -188,6 +190,7 @@ class Runtime:
                     self.calls += 1
                     c = rt.canon_msg(message)
                     rt.offered.append([d, c])
+                    rt.offered_reg.append(None if rt.reg is None else list(rt.reg))
                     if (d, k) in rt.dest_fail:
                         rt.failures.append((d, k, rt.dest_fail[(d, k)], c.get("message_type") == "eliot:destination_failure", c))
                         raise rt.make_exc(rt.dest_fail[(d, k)])
@@ -589,12 +592,15 @@ def exec_stmt(rt, s):
         a = api(rt, "continue_task", eliot.Action.continue_task, task_id=tid, action_type=spec["atype"], **rt.kwargs(spec["fields"]))
         with_block(rt, a, s["body"])
     elif op == "addDests":
+        rt.reg = list(s["ds"]) if rt.reg is None else rt.reg + list(s["ds"])  # the first call delivers the backlog to exactly these
         api(rt, "add_destinations", eliot.add_destinations, *[rt.dest(d) for d in s["ds"]])
     elif op == "removeDest":
         from eliot import _output
         if rt.dest(s["d"]) not in _output.Logger._destinations._destinations:
             raise Stuck()  # removing a destination that is not registered: misuse, outside the model
         api(rt, "remove_destination", eliot.remove_destination, rt.dest(s["d"]))
+        if rt.reg is not None and s["d"] in rt.reg:
+            rt.reg.remove(s["d"])
     elif op == "addGlobals":
         api(rt, "add_global_fields", eliot.add_global_fields, **rt.kwargs(s["fs"]))
     elif op == "probe":
